@@ -158,6 +158,7 @@ static int simWaitPid(int pid, int* status, int options) {
             if (PS.eintrLeft > 0) { PS.eintrLeft--; fired("wait_eintr"); errno = EINTR; return -1; }
             PS.eintrLeft = -1; PS.pos++; continue;
         }
+        if (!PS.synthetic && o.kind == K_W_ERR) { PS.pos++; fired("wait_error_while_a_real_child_runs"); errno = (int)o.a; return -1; }      // the wait itself fails (ECHILD when the program ignores SIGCHLD, ...): the child stays what it is and is collected at the end of the run
         if (!PS.synthetic) { PS.pos++; continue; }
         PS.pos++;
         if (o.kind == K_W_ERR) { fired("wait_error"); errno = (int)o.a; return -1; }
@@ -712,7 +713,7 @@ void executeRun(const Desc& d, Obs& o) {
             struct Abort : public TestPlugin { Abort() : TestPlugin("AbortEarlierRun") {} void preTestAction(UtestShell&, TestResult&) CPPUTEST_OVERRIDE { throw 42; } } ab;
             reg.installPlugin(&ab);
             Obs scratch; RS.o = &scratch;
-            { TestResult ptr(*out); try { reg.runAllTests(ptr); } catch (int) {} }
+            { TestResult ptr(*out); try { reg.runAllTests(ptr); } catch (int) { PlatformSpecificRestoreJumpBuffer(); } }      // (the exception passed the frame that had taken a jump-buffer slot for the test: the slot is given back, as the framework's own handlers do)
             reg.removePluginByName("AbortEarlierRun");
             RS.o = &o; RS.currentTest = -1; RS.testsStartedSoFar = 0;
             simIO().reset(); simClock().reset((uint64_t)d.pi("clock_start"), d.pi("clock_step", 1));
